@@ -191,7 +191,8 @@ theorem C17_product_empty (s : Sweep V) (others : List (Sweep V)) (o : Sweep V) 
     raw combinations with `p`'s constants, derivers and exclude gives — as dictionaries, in order — the Cartesian product of
     the operands' own finished lists.
 
-    *Missing for the full clause* (covered by the correspondence check, where the driver also confirms `wf p` on every
+    *Round 2:* the missing half is proved — `C17_product_enum` / `C17_product` in `Props/C17Ext.lean`.
+    *Was missing for the full clause* (covered by the correspondence check, where the driver also confirms `wf p` on every
     generated case): that the raw combinations of `p` are the merged raw combinations of the operands, i.e. that the merged
     `items` / `dims` enumerate `prodAll` of the operands' zipped groups.  That part is false on the pinned code exactly when
     the receiver has `dims = none` and another operand has `dims` (known finding DF-07, witness below). -/
@@ -284,6 +285,8 @@ variable [DecidableEq V]
     from the projections of all combinations of `s` onto `keys`, each distinct tuple of values kept once (first
     occurrence): its single zipped group `keys` has the columns of those distinct tuples.
 
+    *Round 2:* the read-back for this branch is now proved — `C17_filtered_derivers` in `Props/C17Ext.lean` (`generate` of the
+    result is exactly `distinctFold` of the projections, and `len` their number).
     *Missing for the full clause* (covered by the correspondence check: random sweeps in both tiers, every sweep with <= 2
     dimensions over {0,1} and every key subset in the thorough tier): that `generate` of the result reads the columns back
     as exactly these tuples, and the branch without derivers, where the fixed code (DF-09, DF-C17-01) removes repeated rows of
